@@ -517,3 +517,82 @@ func (s *srcSet) stringSliceVar(rel, name string) ([]string, bool) {
 	}
 	return nil, false
 }
+
+// varFuncLit returns the function literal assigned to a package-level `var name = func(…) … {…}`.
+func (s *srcSet) varFuncLit(rel, name string) *ast.FuncLit {
+	f := s.load(rel)
+	if f == nil {
+		return nil
+	}
+	for _, d := range f.Decls {
+		gd, ok := d.(*ast.GenDecl)
+		if !ok || gd.Tok != token.VAR {
+			continue
+		}
+		for _, sp := range gd.Specs {
+			vs := sp.(*ast.ValueSpec)
+			for i, id := range vs.Names {
+				if id.Name == name && i < len(vs.Values) {
+					if fl, ok := vs.Values[i].(*ast.FuncLit); ok {
+						return fl
+					}
+				}
+			}
+		}
+	}
+	return nil
+}
+
+// intConsts returns the integer constants declared in a file (name -> value), for declarations of the
+// form `Name [type] = <integer literal>`.
+func (s *srcSet) intConsts(rel string) map[string]int64 {
+	out := map[string]int64{}
+	f := s.load(rel)
+	if f == nil {
+		return out
+	}
+	for _, d := range f.Decls {
+		gd, ok := d.(*ast.GenDecl)
+		if !ok || gd.Tok != token.CONST {
+			continue
+		}
+		for _, sp := range gd.Specs {
+			vs := sp.(*ast.ValueSpec)
+			for i, id := range vs.Names {
+				if i < len(vs.Values) {
+					if bl, ok := vs.Values[i].(*ast.BasicLit); ok && bl.Kind == token.INT {
+						if v, err := strconv.ParseInt(bl.Value, 0, 64); err == nil {
+							out[id.Name] = v
+						}
+					}
+				}
+			}
+		}
+	}
+	return out
+}
+
+// emitConsts writes `def <leanName> : Nat := v` for each requested Go constant, or a BROKEN-TIE line.
+func emitConsts(sb *strings.Builder, consts map[string]int64, rel string, names [][2]string) {
+	for _, n := range names {
+		if v, ok := consts[n[0]]; ok && v >= 0 {
+			leanNat(sb, n[1], "`"+n[0]+"` in "+rel, v)
+		} else {
+			brokenTie(sb, n[1], "integer constant "+n[0]+" not found in "+rel)
+		}
+	}
+}
+
+// linesContaining filters skeleton lines by substrings (any of).
+func linesContaining(lines []string, subs ...string) []string {
+	var out []string
+	for _, l := range lines {
+		for _, s := range subs {
+			if strings.Contains(l, s) {
+				out = append(out, l)
+				break
+			}
+		}
+	}
+	return out
+}
